@@ -60,12 +60,22 @@ def unique_def(f, name):
         if a:
             exprs = [x for x in a if x[0] == 'expr']
             if len(a) == 1 and exprs:
+                if name in g.params and not _unconditional(g, exprs[0][1]):
+                    return g, None       # a parameter that is re-assigned on some paths only has two definitions
                 return g, exprs[0][1]
             return g, None
         if name in g.params:
             return g, ('param', name)
         g = g.parent if isinstance(g.parent, FuncInfo) else None
     return None, None
+
+
+def _unconditional(g, value):
+    """Is the statement that assigns `value` a top-level statement of g's body (executed on every path)?"""
+    st = value
+    while st is not None and not isinstance(st, ast.stmt):
+        st = getattr(st, '_parent', None)
+    return st is not None and getattr(st, '_parent', None) is g.node
 
 
 def all_defs(f, name):
@@ -207,11 +217,46 @@ def template(f, expr, depth=6):
                     tuple(sorted((k.arg, tuple(sorted(names_in(k.value)))) for k in e.keywords if k.arg)))
         if isinstance(e.func, ast.Attribute) and e.func.attr == 'join' and isinstance(e.func.value, ast.Constant):
             return ('join',) + tuple(template(f, a, depth - 1) for a in e.args)
+        # a module-level helper whose whole body is `return <expr over its parameters>`: the template of that expression with the arguments substituted
+        if isinstance(e.func, ast.Name) and depth > 0:
+            h = getattr(f.mod, 'funcs', {}).get(e.func.id)
+            body = real([st for st in h.node.body]) if h is not None and not isinstance(h.node, ast.Lambda) else []
+            if len(body) == 1 and isinstance(body[0], ast.Return) and body[0].value is not None and not any(isinstance(a, ast.Starred) for a in e.args):
+                sub = {}
+                for p_, a_ in zip(h.params, e.args):
+                    sub[p_] = a_
+                for k_ in e.keywords:
+                    if k_.arg:
+                        sub[k_.arg] = k_.value
+                nd = len(h.node.args.defaults)
+                for p_, d_ in zip(h.params[len(h.params) - nd:], h.node.args.defaults):
+                    sub.setdefault(p_, d_)
+                if all(p_ in sub for p_ in h.params):
+                    def subst(n):
+                        if isinstance(n, ast.Name) and n.id in sub:
+                            return sub[n.id]
+                        if isinstance(n, ast.AST):
+                            m = type(n)()
+                            for fld in n._fields:
+                                if hasattr(n, fld):
+                                    v = getattr(n, fld)
+                                    setattr(m, fld, [subst(x) for x in v] if isinstance(v, list) else subst(v))
+                            return m
+                        return n
+                    return template(f, subst(body[0].value), depth - 1)
         return ('call', fn)
     if isinstance(e, ast.Subscript):
-        return ('index', template(f, e.value, depth - 1))
+        if isinstance(e.slice, ast.Slice):
+            return ('index', template(f, e.value, depth - 1))
+        return ('index', template(f, e.value, depth - 1), tuple(sorted(names_in(e.slice))))
     if isinstance(e, (ast.ListComp, ast.GeneratorExp)):
-        return ('each', template(f, e.elt, depth - 1))
+        g0 = e.generators[0]
+        var = g0.target.id if len(e.generators) == 1 and isinstance(g0.target, ast.Name) else None
+        dom = trace(f, g0.iter) if isinstance(g0.iter, ast.Name) else g0.iter
+        while isinstance(dom, ast.Call) and norm(dom.func) in ('list', 'tuple') and len(dom.args) == 1:
+            dom = dom.args[0]
+        ident = isinstance(dom, ast.Call) and norm(dom.func) == 'range' and len(dom.args) == 1 and not g0.ifs       # element k was built for the value k
+        return ('each', template(f, e.elt, depth - 1), var, ident)
     return ('expr', norm(e))
 
 
@@ -223,7 +268,7 @@ def strip_vals(tpl):
             return ('val',)
         if tpl and tpl[0] == 'format':
             return ('format', strip_vals(tpl[1]), tuple(k for k, _ in tpl[2]))
-        if tpl and tpl[0] in ('each', 'index') and len(tpl) == 2:
+        if tpl and tpl[0] in ('each', 'index') and len(tpl) >= 2:
             return strip_vals(tpl[1])
         return tuple(strip_vals(x) for x in tpl)
     return tpl
